@@ -122,8 +122,11 @@ fn gen_c12(run_seed: u64, tier: Tier) -> (Scenario, &'static str) {
         Tier::Quick => 30,
         Tier::Thorough => 60,
     };
-    let total = rng.range(1, max_cmds) as usize;
-    let quiet_heavy = rng.chance(1, 2);
+    // one run in twelve: a pipeline of several kilobytes sent in few pieces, so that the
+    // connection's own 4 KiB read buffer ends at arbitrary offsets inside frames
+    let long = rng.chance(1, 12);
+    let total = if long { rng.range(120, 400) as usize } else { rng.range(1, max_cmds) as usize };
+    let quiet_heavy = rng.chance(1, 2) || long;
     let unknown_pct = *rng.pick(&[0u64, 0, 3]);
     let quit_pct = *rng.pick(&[0u64, 3, 10]);
     let mut ctr = 0u32;
@@ -132,7 +135,7 @@ fn gen_c12(run_seed: u64, tier: Tier) -> (Scenario, &'static str) {
     let mut i = 0;
     while i < total {
         let c = rng.usize(conns);
-        let batch = rng.range(1, 8) as usize;
+        let batch = if long { rng.range(40, 200) as usize } else { rng.range(1, 8) as usize };
         for _ in 0..batch {
             let mut r = if rng.chance(quit_pct, 100) {
                 quit_done[c] = true;
@@ -277,6 +280,15 @@ fn gen_c13(run_seed: u64, tier: Tier) -> (Scenario, &'static str) {
         r = SymReq::store(op::SET, &key, Val::Fill { byte: 0x81, len: (target_body - 8 - key.len()) as u32 }, 7, 0, CasSel::Zero);
     }
     reqs.push(r);
+    // now and then a second oversized request right behind the first, or one request later
+    if rng.chance(1, 6) {
+        if rng.chance(1, 2) {
+            reqs.push(gen_any_request(&mut rng, &keys, &p, false, 0));
+        }
+        let k2 = keys[rng.usize(keys.len())].clone();
+        let extra = rng.range(1, 300) as u32;
+        reqs.push(SymReq::store(*rng.pick(&[op::SET, op::SETQ, op::APPEND, op::ADD]), &k2, Val::Fill { byte: 0x82, len: limit as u32 + extra }, 9, 0, CasSel::Zero));
+    }
     for _ in 0..n_after {
         reqs.push(gen_any_request(&mut rng, &keys, &p, false, 0));
     }
